@@ -97,3 +97,210 @@ def vtrcog(h):
     g = _gens(h)
     _history_case(h, 'VTRChangeOverGeneration', dict(ftol=ftol, gtol=gtol, generations=g, target=target),
                   '(L > G and ((%s) - H[L-1] <= gtol or %s)) or abs(H[L-1] - target) <= ftol' % (HG, TIE))
+
+
+# ---------------------------------------------------------------------------- counters / flags
+@contract('C10/EvaluationLimits', ['C10', 'C05'], T + 'EvaluationLimits._EvaluationLimits')
+def evaluation_limits(h):
+    gk = h.choice('generations_kind', ['None', 'int'])
+    ek = h.choice('evaluations_kind', ['None', 'int'])
+    g = None if gk == 'None' else h.int('generations')
+    e = None if ek == 'None' else h.int('evaluations')
+    info = h.choice('info', [False, True])
+    f = h.call(h.get(T + 'EvaluationLimits'), generations=g, evaluations=e)
+    gens, fcalls = h.int('solver_generations'), h.int('solver_fcalls')
+    # (inf is modelled as a real constant >= 2**1024: counters are below it)
+    h.assume('gens >= 0 and fcalls >= 0 and gens < inf and fcalls < inf', gens=gens, fcalls=fcalls)
+    inst = _inst(h, generations=gens, _fcalls=h.clist([fcalls]))
+    r = h.call(f, inst, info)
+    spec = ' or '.join(x for x in ['fcalls >= e' if e is not None else '', 'gens >= g' if g is not None else ''] if x) or 'False'
+    env = dict(r=r, gens=gens, fcalls=fcalls, g=g, e=e, doc=h.getattr(f, '__doc__'))
+    h.check('truthy-iff-a-limit-is-reached', 'iff(truthy(r), %s)' % spec, **env)
+    if info:
+        h.check('info-is-doc-or-empty', '(r is doc) if truthy(r) else (r == "")', **env)
+    else:
+        h.check('result-is-bool', 'r is True or r is False', **env)
+    if g is not None or e is not None:
+        h.cover('satisfied', 'truthy(r)', **env)
+    h.cover('unsatisfied', 'not truthy(r)', **env)
+
+
+@contract('C10/SolverInterrupt', ['C10', 'C05'], T + 'SolverInterrupt._SolverInterrupt')
+def solver_interrupt(h):
+    info = h.choice('info', [False, True])
+    f = h.call(h.get(T + 'SolverInterrupt'))
+    flag = h.bool('EARLYEXIT')
+    r = h.call(f, _inst(h, _EARLYEXIT=flag), info)
+    env = dict(r=r, flag=flag, doc=h.getattr(f, '__doc__'))
+    h.check('truthy-iff-exit-requested', 'iff(truthy(r), flag)', **env)
+    if info:
+        h.check('info-is-doc-or-empty', '(r is doc) if truthy(r) else (r == "")', **env)
+    else:
+        h.check('result-is-bool', 'r is True or r is False', **env)
+    h.cover('satisfied', 'truthy(r)', **env)
+    h.cover('unsatisfied', 'not truthy(r)', **env)
+
+
+# ---------------------------------------------------------------------------- population based (fixed small shapes:
+# the bodies are numpy pipelines over a 2-d array; every instance below is for all values at that shape)
+def _matrix(h, name, nr, nc):
+    rows = [[h.real('%s_%d_%d' % (name, j, k)) for k in range(nc)] for j in range(nr)]
+    return rows, h.clist([h.clist(list(r)) for r in rows])
+
+
+def _pop_case(h, f, inst, spec_terms, env):
+    info = env['info']
+    r = h.call(f, inst, info)
+    env = dict(env, r=r, doc=h.getattr(f, '__doc__'))
+    h.check('truthy-iff-spec', 'iff(truthy(r), %s)' % (' and '.join(spec_terms) or 'True'), **env)
+    if info:
+        h.check('info-is-doc-or-empty', '(r is doc) if truthy(r) else (r == "")', **env)
+    else:
+        h.check('result-is-bool', 'r is True or r is False', **env)
+    h.cover('satisfied', 'truthy(r)', **env)
+    h.cover('unsatisfied', 'not truthy(r)', **env)
+
+
+def _population_spread(h, NP, D):
+    tol = h.real('tolerance')
+    h.assume('tolerance >= 0', tolerance=tol)
+    info = h.choice('info', [False, True])
+    f = h.call(h.get(T + 'PopulationSpread'), tolerance=tol)
+    rows, pop = _matrix(h, 'p', NP, D)
+    env = dict(info=info, tolerance=tol)
+    terms = []
+    for j in range(NP):
+        for k in range(D):
+            env['p%d%d' % (j, k)] = rows[j][k]
+            terms.append('abs(p%d%d - p0%d) <= abs(tolerance * p0%d)' % (j, k, k, k))
+    _pop_case(h, f, _inst(h, population=pop), terms, env)
+
+
+def _candidate_relative_tolerance(h, NP, D):
+    xtol, ftol = h.real('xtol'), h.real('ftol')
+    h.assume('xtol >= 0 and ftol >= 0', xtol=xtol, ftol=ftol)
+    info = h.choice('info', [False, True])
+    f = h.call(h.get(T + 'CandidateRelativeTolerance'), xtol=xtol, ftol=ftol)
+    rows, pop = _matrix(h, 'p', NP, D)
+    es = [h.real('e%d' % j) for j in range(NP)]
+    env = dict(info=info, xtol=xtol, ftol=ftol)
+    terms = []
+    for j in range(NP):
+        env['e%d' % j] = es[j]
+        for k in range(D):
+            env['p%d%d' % (j, k)] = rows[j][k]
+            if j:
+                terms.append('abs(p%d%d - p0%d) <= xtol' % (j, k, k))
+        if j:
+            terms.append('abs(e0 - e%d) <= ftol' % j)
+    _pop_case(h, f, _inst(h, population=pop, popEnergy=h.clist(list(es))), terms, env)
+
+
+def _solution_improvement(h, D, NP):
+    tol = h.real('tolerance')
+    h.assume('tolerance >= 0', tolerance=tol)
+    info = h.choice('info', [False, True])
+    f = h.call(h.get(T + 'SolutionImprovement'), tolerance=tol)
+    best = [h.real('b%d' % k) for k in range(D)]
+    env = dict(info=info, tolerance=tol, **{'b%d' % k: best[k] for k in range(D)})
+    if NP is None:
+        trial = [h.real('t%d' % k) for k in range(D)]
+        env.update({'t%d' % k: trial[k] for k in range(D)})
+        terms = [' + '.join('abs(b%d - t%d)' % (k, k) for k in range(D)) + ' <= tolerance']
+        tv = h.clist(list(trial))
+    else:
+        rows, tv = _matrix(h, 't', NP, D)
+        sums = []
+        for j in range(NP):
+            for k in range(D):
+                env['t%d%d' % (j, k)] = rows[j][k]
+            sums.append('(' + ' + '.join('abs(b%d - t%d%d)' % (k, j, k) for k in range(D)) + ')')
+        # for a trial population the documented reading is the maximum over its rows
+        terms = ['%s <= tolerance' % s for s in sums]
+    _pop_case(h, f, _inst(h, bestSolution=h.clist(list(best)), trialSolution=tv), terms, env)
+
+
+for _np, _d in [(2, 1), (2, 2), (3, 2)]:
+    contract('C10/PopulationSpread/nPop=%d,nDim=%d' % (_np, _d), ['C10'], T + 'PopulationSpread._PopulationSpread')(
+        lambda h, a=_np, b=_d: _population_spread(h, a, b))
+    contract('C10/CandidateRelativeTolerance/nPop=%d,nDim=%d' % (_np, _d), ['C10', 'C08'],
+             T + 'CandidateRelativeTolerance._CandidateRelativeTolerance')(
+        lambda h, a=_np, b=_d: _candidate_relative_tolerance(h, a, b))
+for _d, _np in [(1, None), (3, None), (2, 2)]:
+    contract('C10/SolutionImprovement/nDim=%d,trial=%s' % (_d, 'vector' if _np is None else 'population(%d)' % _np), ['C10'],
+             T + 'SolutionImprovement._SolutionImprovement')(lambda h, a=_d, b=_np: _solution_improvement(h, a, b))
+
+
+# ---------------------------------------------------------------------------- compound conditions
+# Members are abstract callables obeying the member contract  truthy(m(solver, info)) <=> sat_m  for every
+# value of info, with m(solver, True) a message string (non-empty iff sat_m).  A compound proved to obey the same
+# contract is itself a legal member, so the all/any reading holds to any nesting depth by induction.
+def _member(h, i):
+    sat = h.bool('sat_%d' % i)
+    if h.is_sym():
+        from pyvc.values import SStr
+
+        def sym(H, I, args, kwargs):
+            info = args[1] if len(args) > 1 else kwargs.get('info', False)
+            t = I.truth(sat)
+            if info is True or (info and info not in ('self', 'not')):
+                # the member's message: an opaque token (a compound's own message is a "; "-join of such tokens)
+                return SStr('message-%d' % i, nonempty=True, parts=('atoms', '; ', ['message-%d' % i])) if t else ''
+            return t
+        m = h.fn('member_%d' % i, sym=sym)
+    else:
+        def native(H, solver, info=False):
+            if info is True:
+                return ('message-%d' % i) if sat else ''
+            return bool(sat)
+        m = h.fn('member_%d' % i, native=native)
+        m.__module__ = 'mystic.termination'
+    return m, sat
+
+
+def _compound(h, kind, n, info):
+    ms = [_member(h, i) for i in range(n)]
+    c = h.tuple_obj(T + kind, [m for m, _ in ms])
+    solver = _inst(h)
+    r = h.call(c, solver, info)
+    sats = {'s%d' % i: s for i, (_, s) in enumerate(ms)}
+    if kind == 'Or':
+        spec = ' or '.join(sorted(sats))
+    else:
+        spec = ' and '.join(sorted(sats))
+    if info in (False, True):
+        h.check('%s-truthy-iff-%s-members-are' % (kind, 'any' if kind == 'Or' else 'all'), 'iff(truthy(r), %s)' % spec, r=r, **sats)
+    if info is False:
+        h.check('result-is-bool', 'r is True or r is False', r=r)
+    if info is True:
+        # the message is the "; "-join of exactly the satisfied members' messages (And/When: all of them, or "")
+        if h.is_sym():
+            from pyvc.models import _atoms
+            named = set(_atoms(r)[1]) if _atoms(r) else (set() if r == '' else None)
+        else:
+            named = set(p for p in r.split('; ') if p)
+        if named is None:
+            h.unsupported('message is not a join of member messages')
+        for i, (m, s) in enumerate(ms):
+            want = 's' if kind == 'Or' else '(%s)' % spec
+            h.check('info-names-only-and-all-satisfied-members', 'iff(named, %s)' % want, named=('message-%d' % i) in named, s=s, **sats)
+        h.check('info-has-no-foreign-parts', 'n <= k', n=len(named), k=n)
+    if info == 'self':
+        # the returned members are exactly the satisfied ones (And/When: all of them, or none)
+        for i, (m, s) in enumerate(ms):
+            want = 's' if kind == 'Or' else '(%s)' % spec
+            h.check('info-self-names-only-and-all-satisfied-members', 'iff(m in r, %s)' % want, m=m, r=r, s=s, **sats)
+        h.check('info-self-has-no-foreign-entries', 'len(r) <= n', r=r, n=n)
+    if info == 'not':
+        for i, (m, s) in enumerate(ms):
+            want = 'not s' if kind == 'Or' else 'not (%s)' % spec
+            h.check('info-not-is-the-complement', 'iff(m in r, %s)' % want, m=m, r=r, s=s, **sats)
+    h.cover('satisfied', 'truthy(r)', r=r)
+    h.cover('unsatisfied', 'not truthy(r)', r=r)
+
+
+for _kind, _ns in [('And', (1, 2, 3)), ('Or', (1, 2, 3)), ('When', (1,))]:
+    for _n in _ns:
+        for _info in (False, True, 'self', 'not'):
+            contract('C10/%s/n=%d,info=%s' % (_kind, _n, _info), ['C10'], T + ('Or.__call__' if _kind == 'Or' else 'When.__call__'))(
+                lambda h, k=_kind, n=_n, i=_info: _compound(h, k, n, i))
